@@ -39,7 +39,7 @@ type Engine struct {
 	sumBusy map[*ssa.Function]bool
 	cursors map[*ssa.Function]map[*ssa.Phi]ssa.Value
 	// at: the block of the construct being examined (facts there prune phi inputs, see kit.RootAt)
-	at *ssa.BasicBlock
+	at      *ssa.BasicBlock
 	curBusy map[*ssa.Function]bool
 	keyType map[string]types.Type
 	keyName map[string]string
